@@ -77,6 +77,10 @@ func c12BigField(k vt.Kind, size, salt int) any {
 
 var c12MaxPendings = []int{1, 2, 7, 64, 0}
 
+// c12KnownTail: finding C14-wide-row-merge-non-canonical is listed open and its pinned case still
+// reproduces on the tree under test (set once by TestVerif_C12/maps).
+var c12KnownTail bool
+
 type c12MapCaseState struct {
 	w        *c12World
 	flavor   string
@@ -331,7 +335,7 @@ func (s *c12MapCaseState) mergeHistory(t *rapid.T, label string) {
 	// rows behind the right side's last key, the patch merge may keep right's last leaf as a chunk
 	// or fail with unsorted patches; such merge histories are counted as excluded, not compared
 	knownTail := R.Len() > 0 && s.T.Len() > 0 && vt.CompareRows(R.E[R.Len()-1].K, s.T.E[s.T.Len()-1].K) < 0 &&
-		vh.OpenFinding("C14", c14WideFinding)
+		c12KnownTail
 	if err != nil {
 		if knownTail && strings.Contains(err.Error(), "expected patches to be sorted by key") {
 			s.excluded++
@@ -1053,6 +1057,15 @@ func TestVerif_C12(t *testing.T) {
 			"JSON documents are not covered here",
 			"while known finding C14-wide-row-merge-non-canonical is open, a merge-route history whose merged map has rows behind the right side's last key and which shows that finding's failure (same rows but other root, or 'patches not sorted') is counted as excluded_known")
 		defer rec.Write(t)
+		c12KnownTail = false
+		if vh.OpenFinding("C14", c14WideFinding) {
+			for variant := 0; variant < 2; variant++ {
+				merged, bulk, same, err := c14PinnedTailCase(variant)
+				if (err != nil && strings.Contains(err.Error(), "expected patches to be sorted by key")) || (err == nil && same && merged != bulk) {
+					c12KnownTail = true
+				}
+			}
+		}
 		vh.Check(t, "histories", 450, 700, func(rt *rapid.T) { c12MapCase(rt, rec) })
 	})
 	t.Run("addrmap", func(t *testing.T) {
